@@ -1,6 +1,1036 @@
-//! C18 — stub: correspondence harness not built yet.
+//! C18 — at most one writer per index; the lock follows the writer's lifetime.
+//!
+//! Ties `Model/Lock.lean` to `Index::writer*`, `IndexWriter::{new, rollback, wait_merging_threads,
+//! drop}`, `Directory::acquire_lock` (lock file) and `MmapDirectory::acquire_lock` (flock):
+//!  * generated lifecycles (create on several `Index` handles with valid / invalid arguments,
+//!    rollback, drop, wait_merging_threads, worker failure, use) on `RamDirectory`,
+//!    `MmapDirectory` (two `Index` instances opened on one path, plus a second process) and the
+//!    logging `VDir` (plus injected construction / rollback failures): every call's outcome and
+//!    the final lock state are compared with the model;
+//!  * oracle on the implementation alone: never two live writers, `LockBusy` exactly when a
+//!    writer is alive, the first writer is undisturbed by failed attempts (it can still add and
+//!    commit), the lock file is not touched during a rollback, a new writer opens after the
+//!    previous one was killed by an indexing error and dropped;
+//!  * racing creations from 2–8 threads: at most one succeeds (exactly one when all arguments
+//!    are valid); on `VDir` the real order of lock operations is replayed through the model.
+use crate::dirs::{OpKind, VDir};
+use crate::rng::Rng;
 use crate::Ctx;
+use serde_json::{json, Value};
+use std::panic::{catch_unwind, AssertUnwindSafe};
+use std::path::{Path, PathBuf};
+use std::sync::{Arc, Barrier};
+use std::time::{Duration, Instant};
+use tantivy::directory::error::LockError;
+use tantivy::directory::{MmapDirectory, RamDirectory};
+use tantivy::indexer::IndexWriterOptions;
+use tantivy::schema::{Field, Schema, INDEXED, STORED, TEXT};
+use tantivy::{Directory, Index, IndexWriter, TantivyDocument, TantivyError};
+
+const LOCK: &str = ".tantivy-writer.lock";
+const MIN: u64 = 15_000_000; // re-derived from the model (`argsok`) at start-up, see `check_constants`
+const MAX: u64 = 4_293_967_295;
+
+#[derive(Clone, Copy, Debug, PartialEq, Eq)]
+enum Backend {
+    Ram,
+    Mmap,
+    V,
+}
+
+impl Backend {
+    fn name(self) -> &'static str {
+        match self {
+            Backend::Ram => "ram",
+            Backend::Mmap => "mmap",
+            Backend::V => "vdir",
+        }
+    }
+    fn parse(s: &str) -> Option<Backend> {
+        match s {
+            "ram" => Some(Backend::Ram),
+            "mmap" => Some(Backend::Mmap),
+            "vdir" => Some(Backend::V),
+            _ => None,
+        }
+    }
+}
+
+#[derive(Clone, Debug, PartialEq)]
+enum Op {
+    /// via 0: writer_with_num_threads(threads, budget_per_thread*threads); 1: writer_with_options;
+    /// 2: writer(budget_per_thread) (thread count chosen by tantivy)
+    Create { h: usize, threads: usize, budget: u64, via: u8 },
+    Rollback { sel: usize },
+    Drop { sel: usize },
+    Wait { sel: usize },
+    Kill { sel: usize },
+    Use { sel: usize },
+    /// VDir only: `meta.json` cannot be read while `rollback` builds the replacement writer
+    RollbackFault { sel: usize },
+    /// VDir only: `meta.json` cannot be read while `IndexWriter::new` runs
+    CreateFault { h: usize },
+}
+
+impl Op {
+    fn to_json(&self) -> Value {
+        match self {
+            Op::Create { h, threads, budget, via } => json!(["create", h, threads, budget, via]),
+            Op::Rollback { sel } => json!(["rollback", sel]),
+            Op::Drop { sel } => json!(["drop", sel]),
+            Op::Wait { sel } => json!(["wait", sel]),
+            Op::Kill { sel } => json!(["kill", sel]),
+            Op::Use { sel } => json!(["use", sel]),
+            Op::RollbackFault { sel } => json!(["rollback-fault", sel]),
+            Op::CreateFault { h } => json!(["create-fault", h]),
+        }
+    }
+    fn from_json(v: &Value) -> Option<Op> {
+        let a = v.as_array()?;
+        let u = |i: usize| a.get(i).and_then(|x| x.as_u64());
+        Some(match a.first()?.as_str()? {
+            "create" => Op::Create { h: u(1)? as usize, threads: u(2)? as usize, budget: u(3)?, via: u(4)? as u8 },
+            "rollback" => Op::Rollback { sel: u(1)? as usize },
+            "drop" => Op::Drop { sel: u(1)? as usize },
+            "wait" => Op::Wait { sel: u(1)? as usize },
+            "kill" => Op::Kill { sel: u(1)? as usize },
+            "use" => Op::Use { sel: u(1)? as usize },
+            "rollback-fault" => Op::RollbackFault { sel: u(1)? as usize },
+            "create-fault" => Op::CreateFault { h: u(1)? as usize },
+            _ => return None,
+        })
+    }
+}
+
+#[derive(Debug, Clone, PartialEq, Eq)]
+enum Outcome {
+    Ok,
+    Busy,
+    Invalid,
+    Io,
+    Panic,
+    Other(String),
+}
+
+impl Outcome {
+    fn of<T>(r: &std::thread::Result<tantivy::Result<T>>) -> Outcome {
+        match r {
+            Err(_) => Outcome::Panic,
+            Ok(Ok(_)) => Outcome::Ok,
+            Ok(Err(TantivyError::LockFailure(LockError::LockBusy, _))) => Outcome::Busy,
+            Ok(Err(TantivyError::LockFailure(LockError::IoError(_), _))) => Outcome::Io,
+            Ok(Err(TantivyError::InvalidArgument(_))) => Outcome::Invalid,
+            Ok(Err(TantivyError::IoError(_))) | Ok(Err(TantivyError::OpenReadError(_))) => Outcome::Io,
+            Ok(Err(e)) => Outcome::Other(format!("{e:?}").chars().take(120).collect()),
+        }
+    }
+    fn model_name(&self, id: usize) -> String {
+        match self {
+            Outcome::Ok => format!("ok{id}"),
+            Outcome::Busy => "busy".into(),
+            Outcome::Invalid => "invalid".into(),
+            Outcome::Io => "io".into(),
+            Outcome::Panic => "panic".into(),
+            Outcome::Other(s) => format!("other:{s}"),
+        }
+    }
+}
+
+struct Live {
+    id: usize,
+    w: IndexWriter,
+    killed: bool,
+    /// lost its guard in a failed rollback (`_directory_lock = None`)
+    lockless: bool,
+    /// documents added since the last commit / rollback
+    pending: u64,
+}
+
+struct World {
+    backend: Backend,
+    handles: Vec<Index>,
+    vdir: Option<VDir>,
+    ram: Option<RamDirectory>,
+    tmp: Option<tempfile::TempDir>,
+    text: Field,
+    num: Field,
+    live: Vec<Live>,
+    next_id: usize,
+    committed: u64,
+    /// why the lock should be free now (name of the last releasing operation)
+    last_release: &'static str,
+}
+
+fn schema() -> (Schema, Field, Field) {
+    let mut b = Schema::builder();
+    let text = b.add_text_field("t", TEXT | STORED);
+    let num = b.add_u64_field("n", INDEXED);
+    (b.build(), text, num)
+}
+
+impl World {
+    fn new(backend: Backend) -> World {
+        let (schema, text, num) = schema();
+        let mut w = World {
+            backend,
+            handles: vec![],
+            vdir: None,
+            ram: None,
+            tmp: None,
+            text,
+            num,
+            live: vec![],
+            next_id: 0,
+            committed: 0,
+            last_release: "start",
+        };
+        match backend {
+            Backend::Ram => {
+                let ram = RamDirectory::create();
+                let i0 = Index::create(ram.clone(), schema, Default::default()).unwrap();
+                let i1 = Index::open(ram.clone()).unwrap();
+                let i2 = i0.clone();
+                w.handles = vec![i0, i1, i2];
+                w.ram = Some(ram);
+            }
+            Backend::Mmap => {
+                let tmp = fast_tempdir();
+                let i0 = Index::create_in_dir(tmp.path(), schema).unwrap();
+                let i1 = Index::open_in_dir(tmp.path()).unwrap();
+                let i2 = Index::open(MmapDirectory::open(tmp.path()).unwrap()).unwrap();
+                w.handles = vec![i0, i1, i2];
+                w.tmp = Some(tmp);
+            }
+            Backend::V => {
+                let vdir = VDir::new();
+                let i0 = Index::create(vdir.clone(), schema, Default::default()).unwrap();
+                let i1 = Index::open(vdir.clone()).unwrap();
+                let i2 = i0.clone();
+                w.handles = vec![i0, i1, i2];
+                w.vdir = Some(vdir);
+            }
+        }
+        w
+    }
+    /// does the lock file exist (lock-file based directories only)
+    fn lock_file_exists(&self) -> Option<bool> {
+        match self.backend {
+            Backend::Ram => self.ram.as_ref().map(|r| r.exists(Path::new(LOCK)).unwrap_or(false)),
+            Backend::V => self.vdir.as_ref().map(|v| v.inner.exists(Path::new(LOCK)).unwrap_or(false)),
+            Backend::Mmap => None,
+        }
+    }
+    fn good_doc(&self, n: u64) -> TantivyDocument {
+        let mut d = TantivyDocument::default();
+        d.add_text(self.text, format!("doc {n}"));
+        d.add_u64(self.num, n);
+        d
+    }
+    /// a text value in the u64 field: `SegmentWriter::add_document` returns a schema error in
+    /// the indexing worker, which kills the writer
+    fn bad_doc(&self) -> TantivyDocument {
+        let mut d = TantivyDocument::default();
+        d.add_text(self.text, "poison");
+        d.add_text(self.num, "not a number");
+        d
+    }
+    fn num_docs(&self, h: usize) -> Result<u64, String> {
+        let reader = self.handles[h].reader().map_err(|e| format!("{e:?}"))?;
+        reader.reload().map_err(|e| format!("{e:?}"))?;
+        Ok(reader.searcher().num_docs())
+    }
+    fn lock_log_ops(&self, from: usize) -> Vec<String> {
+        match &self.vdir {
+            Some(v) => v.log()[from..]
+                .iter()
+                .filter(|r| r.path == LOCK && r.kind != OpKind::Exists)
+                .map(|r| r.line())
+                .collect(),
+            None => vec![],
+        }
+    }
+}
+
+/// fsync on the sandbox's disk costs tens of milliseconds; a tmpfs keeps flock semantics
+fn fast_tempdir() -> tempfile::TempDir {
+    let shm = Path::new("/dev/shm");
+    if shm.is_dir() {
+        if let Ok(d) = tempfile::tempdir_in(shm) {
+            return d;
+        }
+    }
+    tempfile::tempdir().unwrap()
+}
+
+fn set_meta_read_fault(v: &VDir, on: bool) {
+    fn filt(k: OpKind, p: &str) -> bool {
+        k == OpKind::AtomicRead && p == "meta.json"
+    }
+    v.with_state(|s| {
+        if on {
+            s.fault_filter = Some(filt);
+            s.faultable_seen = 0;
+            s.fail_at = Some((0, true));
+        } else {
+            s.fault_filter = None;
+            s.fail_at = None;
+        }
+    });
+}
+
+fn create_writer(index: &Index, threads: usize, budget: u64, via: u8) -> std::thread::Result<tantivy::Result<IndexWriter>> {
+    catch_unwind(AssertUnwindSafe(|| match via {
+        0 => index.writer_with_num_threads(threads, (budget as usize).saturating_mul(threads.max(1))),
+        1 => index.writer_with_options(
+            IndexWriterOptions::builder()
+                .num_worker_threads(threads)
+                .memory_budget_per_thread(budget as usize)
+                .num_merge_threads(1)
+                .build(),
+        ),
+        _ => index.writer(budget as usize),
+    }))
+}
+
+/// per-thread budget and thread count that `IndexWriter::new` sees (mirrors the arithmetic of
+/// `Index::writer` / `writer_with_num_threads`, which is not part of the lock model)
+fn effective_args(threads: usize, budget: u64, via: u8) -> (u64, usize) {
+    match via {
+        0 => {
+            let overall = (budget as usize).saturating_mul(threads.max(1));
+            if threads == 0 { (0, 0) } else { ((overall / threads) as u64, threads) }
+        }
+        1 => (budget, threads),
+        _ => {
+            let avail = std::thread::available_parallelism().map(|n| n.get()).unwrap_or(1);
+            let mut n = avail.min(8);
+            if (budget as usize) / n < MIN as usize {
+                n = ((budget as usize) / MIN as usize).max(1);
+            }
+            ((budget as usize / n) as u64, n)
+        }
+    }
+}
+
+fn gen_budget(rng: &mut Rng) -> u64 {
+    match rng.below(20) {
+        0 => MIN - 1,
+        1 => MIN + 1,
+        2 => MAX - 1,
+        3 => MAX,
+        4 => MAX + 1,
+        5 => 0,
+        6 => 1,
+        7 => 2 * MIN,
+        _ => MIN,
+    }
+}
+
+fn gen_ops(rng: &mut Rng, backend: Backend, len: usize) -> Vec<Op> {
+    let mut ops = vec![];
+    for _ in 0..len {
+        let r = rng.below(100);
+        let sel = rng.usize_below(4);
+        let h = rng.usize_below(3);
+        let op = if r < 34 {
+            let via = match rng.below(10) { 0..=4 => 0u8, 5..=8 => 1, _ => 2 };
+            let mut threads = match rng.below(12) { 0 => 0usize, 1 => 2, 2 => 8, _ => 1 };
+            let budget = if via == 2 { *rng.pick(&[MIN, MIN - 1, 8 * MIN, 20 * MIN, 3]) } else { gen_budget(rng) };
+            if via == 0 && threads == 0 && !rng.chance(1, 4) {
+                threads = 1; // the zero-thread division by zero (known finding) stays rare
+            }
+            Op::Create { h, threads, budget, via }
+        } else if r < 48 {
+            Op::Drop { sel }
+        } else if r < 56 {
+            Op::Wait { sel }
+        } else if r < 70 {
+            Op::Rollback { sel }
+        } else if r < 78 {
+            Op::Kill { sel }
+        } else if r < 92 {
+            Op::Use { sel }
+        } else if backend == Backend::V {
+            if r < 96 { Op::RollbackFault { sel } } else { Op::CreateFault { h } }
+        } else {
+            Op::Create { h, threads: 1, budget: MIN, via: 1 }
+        };
+        ops.push(op);
+    }
+    ops
+}
+
+struct LifecycleResult {
+    model_events: Vec<String>,
+    real_outs: Vec<String>,
+    nontrivial: bool,
+    ops_run: usize,
+}
+
+/// runs one lifecycle against the real code; reports oracle violations; returns the event
+/// string for the model and the real outcomes in model notation
+fn run_lifecycle(ctx: &mut Ctx, backend: Backend, ops: &[Op]) -> LifecycleResult {
+    let case = json!({"kind": "lifecycle", "backend": backend.name(), "ops": ops.iter().map(|o| o.to_json()).collect::<Vec<_>>()});
+    let mut w = World::new(backend);
+    let mut evs: Vec<String> = vec![];
+    let mut outs: Vec<String> = vec![];
+    let mut busy_seen = false;
+    let mut released_seen = false;
+    let mut doc_seq = 0u64;
+    let mut ops_run = 0usize;
+    for (opi, op) in ops.iter().enumerate() {
+        ops_run += 1;
+        let nlive = w.live.len();
+        let pick = |sel: usize| if nlive == 0 { None } else { Some(sel % nlive) };
+        match op {
+            Op::Create { h, threads, budget, via } => {
+                let (pt, nt) = effective_args(*threads, *budget, *via);
+                let args_ok = ctx.model.ask(&format!("C18 argsok {pt} {nt}")) == "1";
+                let r = create_writer(&w.handles[*h], *threads, *budget, *via);
+                let out = Outcome::of(&r);
+                ctx.report.count(&format!("create:{}:{}", backend.name(), match &out { Outcome::Other(_) => "other".into(), o => o.model_name(0).trim_end_matches('0').to_string() }));
+                if *via == 0 && *threads == 0 {
+                    // division by zero in writer_with_num_threads before anything is acquired
+                    if out == Outcome::Panic {
+                        ctx.report.violation("oracle", "C18:zero-threads-divides-by-zero",
+                            "Index::writer_with_num_threads(0, budget) panics (division by zero) instead of returning InvalidArgument".into(), case.clone());
+                    } else if out != Outcome::Invalid && out != Outcome::Busy {
+                        ctx.report.violation("oracle", "C18:zero-threads-outcome", format!("writer_with_num_threads(0, _) -> {out:?}"), case.clone());
+                    }
+                    // not an event of the lock model (nothing was acquired); the lock state must be unchanged
+                    if let Some(ex) = w.lock_file_exists() {
+                        let expect = w.live.iter().any(|l| !l.lockless);
+                        if ex != expect {
+                            ctx.report.violation("oracle", "C18:lock-file-state", format!("after the zero-thread call the lock file exists={ex}, expected {expect} (op {opi})"), case.clone());
+                        }
+                    }
+                    continue;
+                }
+                let any_live = !w.live.is_empty();
+                let owner_live = w.live.iter().any(|l| !l.lockless);
+                // ---- oracle on the implementation alone
+                match &out {
+                    Outcome::Ok => {
+                        if any_live {
+                            if !owner_live && w.live.iter().all(|l| l.lockless) {
+                                ctx.report.violation("oracle", "C18:failed-rollback-leaves-lockless-writer",
+                                    format!("a second IndexWriter was created while the writer whose rollback failed is still alive (op {opi}): two live writers"), case.clone());
+                            } else {
+                                ctx.report.violation("oracle", "C18:two-live-writers",
+                                    format!("Index::writer returned Ok while a lock-owning writer is alive (op {opi}, backend {})", backend.name()), case.clone());
+                            }
+                        }
+                        if !args_ok {
+                            ctx.report.violation("oracle", "C18:invalid-args-accepted", format!("writer created with per-thread budget {pt}, {nt} threads (op {opi})"), case.clone());
+                        }
+                    }
+                    Outcome::Busy => {
+                        busy_seen = true;
+                        if !any_live {
+                            ctx.report.violation("oracle", &format!("C18:lock-not-released-after-{}", w.last_release),
+                                format!("LockBusy although no writer is alive (last release: {}, op {opi}, backend {})", w.last_release, backend.name()), case.clone());
+                        } else if !owner_live {
+                            ctx.report.violation("oracle", "C18:busy-without-owner", format!("LockBusy although only lock-less writers are alive (op {opi})"), case.clone());
+                        }
+                    }
+                    Outcome::Invalid => {
+                        if owner_live {
+                            ctx.report.violation("oracle", "C18:busy-not-reported", format!("InvalidArgument instead of LockBusy while a writer is alive (op {opi})"), case.clone());
+                        }
+                        if args_ok {
+                            ctx.report.violation("oracle", "C18:valid-args-refused", format!("InvalidArgument for per-thread budget {pt}, {nt} threads (op {opi})"), case.clone());
+                        }
+                    }
+                    other => {
+                        ctx.report.violation("oracle", "C18:create-unexpected-outcome", format!("Index::writer -> {other:?} (op {opi}, backend {})", backend.name()), case.clone());
+                    }
+                }
+                evs.push(format!("c{}:{}:1", h, if args_ok { 1 } else { 0 }));
+                outs.push(out.model_name(w.next_id));
+                if let Ok(Ok(writer)) = r {
+                    w.live.push(Live { id: w.next_id, w: writer, killed: false, lockless: false, pending: 0 });
+                    w.next_id += 1;
+                } else if owner_live && rng_free_check(opi) {
+                    // the first writer must be undisturbed by the failed attempt
+                    let idx = w.live.iter().position(|l| !l.lockless).unwrap();
+                    if !w.live[idx].killed {
+                        use_writer(ctx, &mut w, idx, &mut doc_seq, &case, opi, "after a refused creation");
+                    }
+                } else if !owner_live {
+                    w.last_release = "failed-construction";
+                    released_seen = true;
+                }
+            }
+            Op::CreateFault { h } => {
+                let v = w.vdir.clone().expect("vdir op on another backend");
+                set_meta_read_fault(&v, true);
+                let r = create_writer(&w.handles[*h], 1, MIN, 1);
+                set_meta_read_fault(&v, false);
+                let out = Outcome::of(&r);
+                let owner_live = w.live.iter().any(|l| !l.lockless);
+                ctx.report.count("create-fault");
+                match (&out, owner_live) {
+                    (Outcome::Busy, true) => busy_seen = true,
+                    (Outcome::Io, false) => {
+                        w.last_release = "failed-construction";
+                        released_seen = true;
+                    }
+                    _ => ctx.report.violation("oracle", "C18:create-fault-outcome", format!("Index::writer with unreadable meta.json -> {out:?}, owner alive = {owner_live} (op {opi})"), case.clone()),
+                }
+                evs.push(format!("c{}:1:0", h));
+                outs.push(out.model_name(w.next_id));
+                if let Ok(Ok(writer)) = r {
+                    w.live.push(Live { id: w.next_id, w: writer, killed: false, lockless: false, pending: 0 });
+                    w.next_id += 1;
+                }
+            }
+            Op::Rollback { sel } | Op::RollbackFault { sel } => {
+                let Some(i) = pick(*sel) else { ops_run -= 1; continue };
+                let fault = matches!(op, Op::RollbackFault { .. });
+                let from = w.vdir.as_ref().map(|v| v.log_len()).unwrap_or(0);
+                if fault {
+                    set_meta_read_fault(w.vdir.as_ref().unwrap(), true);
+                }
+                let r = catch_unwind(AssertUnwindSafe(|| w.live[i].w.rollback()));
+                if fault {
+                    set_meta_read_fault(w.vdir.as_ref().unwrap(), false);
+                }
+                let out = Outcome::of(&r);
+                let id = w.live[i].id;
+                let was_lockless = w.live[i].lockless;
+                ctx.report.count(&format!("rollback:{}", if fault { "fault" } else if was_lockless { "lockless" } else { "plain" }));
+                evs.push(format!("r{}:{}", id, if fault { 0 } else { 1 }));
+                outs.push(out.model_name(id));
+                match (&out, was_lockless, fault) {
+                    (Outcome::Ok, false, false) => {
+                        w.live[i].killed = false;
+                        w.live[i].pending = 0;
+                        let touched = w.lock_log_ops(from);
+                        if !touched.is_empty() {
+                            ctx.report.violation("oracle", "C18:lock-touched-during-rollback",
+                                format!("the lock file was operated on during rollback (op {opi}): {touched:?}"), case.clone());
+                        }
+                    }
+                    (Outcome::Io, false, true) => {
+                        // the guard was dropped with the failed IndexWriter::new
+                        w.live[i].lockless = true;
+                        w.last_release = "failed-rollback";
+                    }
+                    (Outcome::Panic, true, _) => {
+                        ctx.report.violation("oracle", "C18:failed-rollback-leaves-lockless-writer",
+                            format!("rollback() of the writer whose previous rollback failed panics: it has no lock any more (op {opi})"), case.clone());
+                    }
+                    _ => ctx.report.violation("oracle", "C18:rollback-unexpected-outcome", format!("rollback -> {out:?} (lockless={was_lockless}, fault={fault}, op {opi})"), case.clone()),
+                }
+            }
+            Op::Drop { sel } | Op::Wait { sel } => {
+                let Some(i) = pick(*sel) else { ops_run -= 1; continue };
+                let l = w.live.remove(i);
+                let wait = matches!(op, Op::Wait { .. });
+                ctx.report.count(if wait { "wait" } else { "drop" });
+                evs.push(format!("{}{}", if wait { "m" } else { "d" }, l.id));
+                outs.push("done".into());
+                if !l.lockless {
+                    w.last_release = if wait { "wait" } else if l.killed { "kill-drop" } else { "drop" };
+                    released_seen = true;
+                }
+                let killed = l.killed;
+                let r = catch_unwind(AssertUnwindSafe(move || {
+                    if wait { l.w.wait_merging_threads().map(|_| ()) } else { drop(l.w); Ok(()) }
+                }));
+                match r {
+                    Err(_) => ctx.report.violation("oracle", "C18:drop-panics", format!("{} panicked (op {opi})", if wait { "wait_merging_threads" } else { "drop" }), case.clone()),
+                    Ok(Err(e)) if !killed => ctx.report.violation("oracle", "C18:wait-failed", format!("wait_merging_threads of a healthy writer failed: {e:?} (op {opi})"), case.clone()),
+                    _ => {}
+                }
+            }
+            Op::Kill { sel } => {
+                let Some(i) = pick(*sel) else { ops_run -= 1; continue };
+                if w.live[i].killed {
+                    ops_run -= 1;
+                    continue;
+                }
+                ctx.report.count("kill");
+                let bad = w.bad_doc();
+                let _ = w.live[i].w.add_document(bad);
+                // the worker fails asynchronously: later adds fail once the bomb went off
+                let t0 = Instant::now();
+                let mut dead = false;
+                while t0.elapsed() < Duration::from_secs(10) {
+                    doc_seq += 1;
+                    let d = w.good_doc(doc_seq);
+                    if w.live[i].w.add_document(d).is_err() {
+                        dead = true;
+                        break;
+                    }
+                    std::thread::sleep(Duration::from_millis(1));
+                }
+                if !dead {
+                    ctx.report.violation("oracle", "C18:indexing-error-not-fatal", format!("a schema error in the worker did not kill the writer within 10 s (op {opi})"), case.clone());
+                }
+                w.live[i].killed = true;
+                evs.push(format!("k{}", w.live[i].id));
+                outs.push("done".into());
+            }
+            Op::Use { sel } => {
+                let Some(i) = pick(*sel) else { ops_run -= 1; continue };
+                if w.live[i].killed || w.live[i].lockless {
+                    // a killed writer refuses documents; nothing else is promised
+                    doc_seq += 1;
+                    let d = w.good_doc(doc_seq);
+                    if w.live[i].killed && w.live[i].w.add_document(d).is_ok() {
+                        ctx.report.violation("oracle", "C18:killed-writer-accepts-documents", format!("add_document on a killed writer returned Ok (op {opi})"), case.clone());
+                    }
+                    continue;
+                }
+                use_writer(ctx, &mut w, i, &mut doc_seq, &case, opi, "use");
+            }
+        }
+        // lock-file state after every operation (lock-file based directories)
+        if let Some(ex) = w.lock_file_exists() {
+            let expect = w.live.iter().any(|l| !l.lockless);
+            if ex != expect {
+                let key = if expect { "C18:lock-file-missing-while-writer-alive".to_string() } else { format!("C18:lock-not-released-after-{}", w.last_release) };
+                ctx.report.violation("oracle", &key, format!("lock file exists={ex}, a lock-owning writer is alive={expect} (after op {opi} {:?})", op), case.clone());
+            }
+        }
+        let owners = w.live.iter().filter(|l| !l.lockless).count();
+        if owners > 1 {
+            ctx.report.violation("oracle", "C18:two-live-writers", format!("{owners} lock-owning writers alive after op {opi}"), case.clone());
+        }
+    }
+    // final: everything dropped -> a writer must open (release on every path)
+    let had = !w.live.is_empty();
+    for l in w.live.drain(..) {
+        evs.push(format!("d{}", l.id));
+        outs.push("done".into());
+        if !l.lockless {
+            w.last_release = if l.killed { "kill-drop" } else { "drop" };
+        }
+        drop(l.w);
+    }
+    let r = create_writer(&w.handles[0], 1, MIN, 1);
+    let out = Outcome::of(&r);
+    evs.push("c0:1:1".into());
+    outs.push(out.model_name(w.next_id));
+    if out != Outcome::Ok {
+        ctx.report.violation("oracle", &format!("C18:lock-not-released-after-{}", w.last_release),
+            format!("after all writers were dropped Index::writer -> {out:?} (last release {}, backend {})", w.last_release, backend.name()), case.clone());
+    }
+    drop(r);
+    LifecycleResult { model_events: evs, real_outs: outs, nontrivial: busy_seen && (released_seen || had), ops_run }
+}
+
+fn rng_free_check(opi: usize) -> bool {
+    // every refused creation is followed by a use of the first writer, except that long runs of
+    // refusals only check every other time (cost)
+    opi % 2 == 0 || opi < 6
+}
+
+fn use_writer(ctx: &mut Ctx, w: &mut World, i: usize, doc_seq: &mut u64, case: &Value, opi: usize, why: &str) {
+    *doc_seq += 1;
+    let d = w.good_doc(*doc_seq);
+    let r = catch_unwind(AssertUnwindSafe(|| -> tantivy::Result<()> {
+        w.live[i].w.add_document(d)?;
+        w.live[i].w.commit()?;
+        Ok(())
+    }));
+    ctx.report.count("use");
+    match r {
+        Ok(Ok(())) => {
+            w.committed += w.live[i].pending + 1;
+            w.live[i].pending = 0;
+            match w.num_docs(1) {
+                Ok(n) if n == w.committed => {}
+                Ok(n) => ctx.report.violation("oracle", "C18:first-writer-disturbed", format!("{why}: {n} documents searchable, {} committed (op {opi})", w.committed), case.clone()),
+                Err(e) => ctx.report.violation("oracle", "C18:first-writer-disturbed", format!("{why}: reader failed {e} (op {opi})"), case.clone()),
+            }
+        }
+        Ok(Err(e)) => ctx.report.violation("oracle", "C18:first-writer-disturbed", format!("{why}: add+commit of the live writer failed: {e:?} (op {opi})"), case.clone()),
+        Err(_) => ctx.report.violation("oracle", "C18:first-writer-disturbed", format!("{why}: add+commit panicked (op {opi})"), case.clone()),
+    }
+}
+
+fn compare_with_model(ctx: &mut Ctx, backend: Backend, ops: &[Op], res: &LifecycleResult) {
+    let case = json!({"kind": "lifecycle", "backend": backend.name(), "ops": ops.iter().map(|o| o.to_json()).collect::<Vec<_>>()});
+    let line = format!("C18 run {}", if res.model_events.is_empty() { "-".to_string() } else { res.model_events.join(",") });
+    let resp = ctx.model.ask(&line);
+    let mut parts = resp.split('|');
+    let model_outs: Vec<String> = parts.next().unwrap_or("").split(',').map(|s| s.to_string()).collect();
+    let held = parts.next().unwrap_or("?");
+    if model_outs != res.real_outs {
+        let first = model_outs.iter().zip(res.real_outs.iter()).position(|(a, b)| a != b).unwrap_or(model_outs.len().min(res.real_outs.len()));
+        ctx.report.violation("model", "C18:outcome-differs-from-model",
+            format!("event {first} ({}): model {:?}, implementation {:?}; events {}", res.model_events.get(first).cloned().unwrap_or_default(), model_outs.get(first), res.real_outs.get(first), res.model_events.join(",")), case.clone());
+    }
+    // the lifecycle ends with a successful creation that is then dropped by the harness
+    if held != "1" && model_outs == res.real_outs {
+        ctx.report.violation("model", "C18:final-state-differs-from-model", format!("model final held={held}"), case);
+    }
+}
+
+// ------------------------------------------------------------------------------------------
+// racing creations
+// ------------------------------------------------------------------------------------------
+
+fn race_round(ctx: &mut Ctx, backend: Backend, n: usize, invalid_mask: u32, round: u64) {
+    let case = json!({"kind": "race", "backend": backend.name(), "threads": n, "invalid_mask": invalid_mask});
+    let w = World::new(backend);
+    let barrier = Arc::new(Barrier::new(n));
+    let from = w.vdir.as_ref().map(|v| v.log_len()).unwrap_or(0);
+    let mut joins = vec![];
+    for t in 0..n {
+        let index = match (backend, t % 3) {
+            (Backend::Mmap, 1) => Index::open_in_dir(w.tmp.as_ref().unwrap().path()).unwrap(),
+            (_, k) => w.handles[k].clone(),
+        };
+        let b = barrier.clone();
+        let invalid = invalid_mask & (1 << t) != 0;
+        joins.push(
+            std::thread::Builder::new()
+                .name(format!("race-{t}"))
+                .spawn(move || {
+                    b.wait();
+                    let r = create_writer(&index, 1, if invalid { MIN - 1 } else { MIN }, 1);
+                    let out = Outcome::of(&r);
+                    (out, r.ok().and_then(|x| x.ok()))
+                })
+                .unwrap(),
+        );
+    }
+    let mut outs = vec![];
+    let mut winners: Vec<IndexWriter> = vec![];
+    for j in joins {
+        match j.join() {
+            Ok((o, wopt)) => {
+                outs.push(o);
+                if let Some(wr) = wopt {
+                    winners.push(wr);
+                }
+            }
+            Err(_) => outs.push(Outcome::Panic),
+        }
+    }
+    let oks = outs.iter().filter(|o| **o == Outcome::Ok).count();
+    let canon = format!("race {} n={n} mask={invalid_mask} round={round}", backend.name());
+    ctx.report.case(&canon, n >= 2);
+    ctx.report.count(&format!("race:{}:threads={n}", backend.name()));
+    if oks > 1 {
+        ctx.report.violation("oracle", "C18:racing-creates-two-winners", format!("{oks} of {n} racing Index::writer calls succeeded on {}: {outs:?}", backend.name()), case.clone());
+    }
+    if invalid_mask == 0 && oks != 1 {
+        ctx.report.violation("oracle", "C18:racing-creates-no-winner", format!("{oks} of {n} racing valid Index::writer calls succeeded on {}: {outs:?}", backend.name()), case.clone());
+    }
+    for (t, o) in outs.iter().enumerate() {
+        let invalid = invalid_mask & (1 << t) != 0;
+        let fine = match o {
+            Outcome::Ok => !invalid,
+            Outcome::Busy => true,
+            Outcome::Invalid => invalid,
+            _ => false,
+        };
+        if !fine {
+            ctx.report.violation("oracle", "C18:racing-create-unexpected-outcome", format!("thread {t} (invalid args: {invalid}) -> {o:?}"), case.clone());
+        }
+    }
+    // VDir: what each thread really did to the lock file (which `open_write` succeeded, who
+    // deleted it), arranged into a linearisation, must be a run of the model with the same
+    // outcomes. (The log is ordered by the start of each operation, not by its effect, so the
+    // order *between* threads is reconstructed: releasing holders one after the other, refused
+    // attempts while somebody holds.)
+    if let Some(v) = &w.vdir {
+        let log = v.log();
+        let mut holders: Vec<usize> = vec![]; // acquired and released (failed construction)
+        let mut winner: Option<usize> = None;
+        let mut refused: Vec<usize> = vec![];
+        let mut deleted: Vec<usize> = vec![];
+        for r in &log[from..] {
+            if r.path != LOCK {
+                continue;
+            }
+            let Some(t) = r.thread.strip_prefix("race-").and_then(|x| x.parse::<usize>().ok()) else { continue };
+            let invalid = invalid_mask & (1 << t) != 0;
+            match r.kind {
+                OpKind::OpenWrite if r.ok && invalid => holders.push(t),
+                OpKind::OpenWrite if r.ok => {
+                    if winner.is_some() {
+                        ctx.report.violation("oracle", "C18:racing-creates-two-winners", format!("two valid creations acquired the lock file: threads {winner:?} and {t}"), case.clone());
+                    }
+                    winner = Some(t)
+                }
+                OpKind::OpenWrite => refused.push(t),
+                OpKind::Delete => deleted.push(t),
+                _ => {}
+            }
+        }
+        let mut hs = holders.clone();
+        hs.sort();
+        deleted.sort();
+        if hs != deleted {
+            ctx.report.violation("oracle", "C18:lock-not-released-after-failed-construction", format!("threads {hs:?} acquired the lock with invalid arguments, threads {deleted:?} deleted the lock file"), case.clone());
+        }
+        let mut evs: Vec<String> = vec![];
+        let mut expect: Vec<String> = vec![];
+        let mut refused_placed = false;
+        let place_refused = |evs: &mut Vec<String>, expect: &mut Vec<String>| {
+            for t in &refused {
+                evs.push(format!("a{t}"));
+                expect.push("busy".into());
+            }
+        };
+        for (i, t) in holders.iter().enumerate() {
+            evs.push(format!("a{t}"));
+            expect.push("done".into());
+            if winner.is_none() && i == 0 {
+                place_refused(&mut evs, &mut expect);
+                refused_placed = true;
+            }
+            evs.push(format!("n{t}:0:1"));
+            expect.push("invalid".into());
+        }
+        if let Some(t) = winner {
+            evs.push(format!("a{t}"));
+            expect.push("done".into());
+            place_refused(&mut evs, &mut expect);
+            refused_placed = true;
+            evs.push(format!("n{t}:1:1"));
+            expect.push("ok0".into());
+        }
+        if !refused_placed {
+            place_refused(&mut evs, &mut expect);
+        }
+        let resp = ctx.model.ask(&format!("C18 run {}", if evs.is_empty() { "-".into() } else { evs.join(",") }));
+        let model_outs: Vec<String> = resp.split('|').next().unwrap_or("").split(',').map(|s| s.to_string()).collect();
+        ctx.report.traces_validated_against_impl += 1;
+        if model_outs != expect {
+            ctx.report.violation("model", "C18:race-trace-differs-from-model", format!("lock operations {evs:?}: implementation {expect:?}, model {model_outs:?}"), case.clone());
+        }
+        let model_ok = model_outs.iter().filter(|o| o.starts_with("ok")).count();
+        if model_ok != oks {
+            ctx.report.violation("model", "C18:race-trace-differs-from-model", format!("model winners {model_ok}, real winners {oks}; trace {evs:?}"), case.clone());
+        }
+    }
+    // the winner is undisturbed and releases on drop
+    if let Some(mut wr) = winners.pop() {
+        let d = w.good_doc(1);
+        let r = catch_unwind(AssertUnwindSafe(|| -> tantivy::Result<()> {
+            wr.add_document(d)?;
+            wr.commit()?;
+            Ok(())
+        }));
+        if !matches!(r, Ok(Ok(()))) {
+            ctx.report.violation("oracle", "C18:first-writer-disturbed", format!("the winner of a race cannot add+commit: {:?}", r.map(|x| x.map_err(|e| format!("{e:?}")))), case.clone());
+        }
+        drop(wr);
+    }
+    drop(winners);
+    let r = create_writer(&w.handles[1], 1, MIN, 1);
+    let out = Outcome::of(&r);
+    if out != Outcome::Ok {
+        ctx.report.violation("oracle", "C18:lock-not-released-after-race", format!("after the race and the drop of its winner Index::writer -> {out:?} on {}", backend.name()), case);
+    }
+}
+
+// ------------------------------------------------------------------------------------------
+// second process (MmapDirectory)
+// ------------------------------------------------------------------------------------------
+
+fn model_path_arg() -> String {
+    let args: Vec<String> = std::env::args().collect();
+    args.iter().position(|a| a == "--model").and_then(|i| args.get(i + 1).cloned()).unwrap_or_else(|| "/verif/lean/.lake/build/bin/tvmodel".into())
+}
+
+fn spawn_child(case: &Value, dir: &Path) -> std::process::Child {
+    let case_path = dir.join(format!("case_{}.json", crate::report::fnv(case.to_string().as_bytes())));
+    std::fs::write(&case_path, case.to_string()).unwrap();
+    std::process::Command::new(std::env::current_exe().unwrap())
+        .args(["C18", "--replay", case_path.to_str().unwrap(), "--model", &model_path_arg(), "--out", "/dev/null"])
+        .stdout(std::process::Stdio::null())
+        .stderr(std::process::Stdio::null())
+        .spawn()
+        .expect("spawn child tvh")
+}
+
+fn child_main(case: &Value) {
+    let path = PathBuf::from(case["path"].as_str().unwrap());
+    let out = PathBuf::from(case["out"].as_str().unwrap());
+    let index = Index::open_in_dir(&path).unwrap();
+    let r = create_writer(&index, 1, MIN, 1);
+    let o = Outcome::of(&r);
+    std::fs::write(&out, o.model_name(0)).unwrap();
+    if case["child"] == "hold" {
+        // keep the writer until the parent asks for release (or kills this process)
+        let rel = PathBuf::from(format!("{}.release", out.display()));
+        let t0 = Instant::now();
+        while !rel.exists() && t0.elapsed() < Duration::from_secs(20) {
+            std::thread::sleep(Duration::from_millis(5));
+        }
+    }
+    drop(r);
+}
+
+fn wait_for_file(p: &Path, secs: u64) -> Option<String> {
+    let t0 = Instant::now();
+    while t0.elapsed() < Duration::from_secs(secs) {
+        if let Ok(s) = std::fs::read_to_string(p) {
+            if !s.is_empty() {
+                return Some(s);
+            }
+        }
+        std::thread::sleep(Duration::from_millis(5));
+    }
+    None
+}
+
+fn two_process_round(ctx: &mut Ctx, variant: u64) {
+    let case = json!({"kind": "two-process", "variant": variant});
+    let w = World::new(Backend::Mmap);
+    let dir = w.tmp.as_ref().unwrap().path().to_path_buf();
+    let scratch = fast_tempdir();
+    ctx.report.case(&format!("two-process variant {variant}"), true);
+    ctx.report.count(&format!("two-process:variant={variant}"));
+    let try_in_child = |tag: &str| -> Option<String> {
+        let out = scratch.path().join(format!("{tag}.out"));
+        let mut c = spawn_child(&json!({"child": "try", "path": dir.to_str().unwrap(), "out": out.to_str().unwrap()}), scratch.path());
+        let _ = c.wait();
+        std::fs::read_to_string(&out).ok()
+    };
+    match variant % 3 {
+        0 => {
+            // parent holds, child tries; parent drops, child tries again
+            let wr = create_writer(&w.handles[0], 1, MIN, 1);
+            if Outcome::of(&wr) != Outcome::Ok {
+                ctx.report.violation("oracle", "C18:create-unexpected-outcome", "first writer on a fresh mmap index failed".into(), case.clone());
+            }
+            let a = try_in_child("a");
+            if a.as_deref() != Some("busy") {
+                ctx.report.violation("oracle", "C18:two-live-writers", format!("a second process got {a:?} while this process holds the writer (MmapDirectory)"), case.clone());
+            }
+            drop(wr);
+            let b = try_in_child("b");
+            if b.as_deref() != Some("ok0") {
+                ctx.report.violation("oracle", "C18:lock-not-released-after-drop", format!("a second process got {b:?} after the writer was dropped (MmapDirectory)"), case.clone());
+            }
+        }
+        k => {
+            // child holds; parent tries (busy); child releases (k=1) or is killed (k=2); parent tries (ok)
+            let out = scratch.path().join("hold.out");
+            let mut c = spawn_child(&json!({"child": "hold", "path": dir.to_str().unwrap(), "out": out.to_str().unwrap()}), scratch.path());
+            let got = wait_for_file(&out, 20);
+            if got.as_deref() != Some("ok0") {
+                ctx.report.violation("oracle", "C18:create-unexpected-outcome", format!("the child process could not create the writer: {got:?}"), case.clone());
+            } else {
+                let r = create_writer(&w.handles[1], 1, MIN, 1);
+                let o = Outcome::of(&r);
+                if o != Outcome::Busy {
+                    ctx.report.violation("oracle", "C18:two-live-writers", format!("Index::writer -> {o:?} while another process holds the writer (MmapDirectory)"), case.clone());
+                }
+                drop(r);
+            }
+            if k == 1 {
+                std::fs::write(format!("{}.release", out.display()), "x").unwrap();
+            } else {
+                let _ = c.kill();
+            }
+            let _ = c.wait();
+            let r = create_writer(&w.handles[1], 1, MIN, 1);
+            let o = Outcome::of(&r);
+            if o != Outcome::Ok {
+                ctx.report.violation("oracle", if k == 1 { "C18:lock-not-released-after-drop" } else { "C18:lock-not-released-after-process-exit" },
+                    format!("Index::writer -> {o:?} after the other process {} (MmapDirectory)", if k == 1 { "dropped its writer" } else { "was killed" }), case.clone());
+            }
+        }
+    }
+}
+
+// ------------------------------------------------------------------------------------------
+
+fn check_constants(ctx: &mut Ctx) {
+    // the harness' boundary values are the model's (extracted) constants
+    let ok = ctx.model.ask(&format!("C18 argsok {MIN} 1")) == "1"
+        && ctx.model.ask(&format!("C18 argsok {} 1", MIN - 1)) == "0"
+        && ctx.model.ask(&format!("C18 argsok {} 1", MAX - 1)) == "1"
+        && ctx.model.ask(&format!("C18 argsok {MAX} 1")) == "0"
+        && ctx.model.ask(&format!("C18 argsok {MIN} 0")) == "0";
+    if !ok {
+        ctx.report.notes.push("the budget boundaries extracted from the source differ from the harness' generator constants; boundary values are no longer on the boundary".into());
+        ctx.report.count("generator-boundaries-stale");
+    }
+}
 
 pub fn run(ctx: &mut Ctx) {
-    ctx.report.notes.push("C18: harness not built yet".into());
+    if let Some(case) = ctx.replay.clone() {
+        if case.get("child").is_some() {
+            child_main(&case);
+            return;
+        }
+        replay(ctx, &case);
+        return;
+    }
+    ctx.report.rule = "a lifecycle is non-trivial if at least one creation was refused with LockBusy and the lock was released at least once (drop / wait / failed construction) before a later creation; a racing round if ≥ 2 threads raced".into();
+    ctx.report.correspondence_obligations = vec![
+        "outcome of every Index::writer* / rollback / drop / wait_merging_threads call = model outcome (RamDirectory, MmapDirectory, VDir)".into(),
+        "argument guards of IndexWriter::new at the extracted boundaries = model argsOk".into(),
+        "lock file present iff the model holds the lock, after every operation (RamDirectory, VDir)".into(),
+        "per-thread lock-file operations of racing creations, arranged into a linearisation, form a run of the model with the same outcomes (VDir)".into(),
+        "oracle: never two live writers; LockBusy iff a writer is alive; first writer undisturbed; lock file untouched during rollback; new writer after kill+drop; second process sees the lock (MmapDirectory)".into(),
+    ];
+    check_constants(ctx);
+    let lifecycles = ctx.budget(500, 10_000);
+    let backends = [Backend::Ram, Backend::Mmap, Backend::V];
+    for n in 0..lifecycles {
+        for &b in &backends {
+            let len = 6 + ctx.rng.usize_below(10);
+            let mut rng = ctx.rng.fork();
+            let ops = gen_ops(&mut rng, b, len);
+            let t0 = Instant::now();
+            let res = run_lifecycle(ctx, b, &ops);
+            ctx.report.count_n(&format!("time-ms:lifecycles:{}", b.name()), t0.elapsed().as_millis() as u64);
+            compare_with_model(ctx, b, &ops, &res);
+            let canon = format!("{} {}", b.name(), res.model_events.join(","));
+            ctx.report.case(&canon, res.nontrivial);
+            ctx.report.count_n("ops", res.ops_run as u64);
+            if n < 2 && b == Backend::V {
+                ctx.report.sample(json!({"backend": b.name(), "events": res.model_events, "outcomes": res.real_outs}));
+            }
+        }
+    }
+    // racing creations
+    let rounds = ctx.budget(300, 3_000);
+    for r in 0..rounds {
+        let b = backends[(r % 3) as usize];
+        let n = 2 + ctx.rng.usize_below(7);
+        let mask = if ctx.rng.chance(1, 3) { (ctx.rng.next_u64() as u32) & ((1 << n) - 1) } else { 0 };
+        let t0 = Instant::now();
+        race_round(ctx, b, n, mask, r);
+        ctx.report.count_n(&format!("time-ms:races:{}", b.name()), t0.elapsed().as_millis() as u64);
+    }
+    // second process
+    let procs = ctx.budget(6, 60);
+    for v in 0..procs {
+        two_process_round(ctx, v);
+    }
+    ctx.report.sample(json!({"racing_rounds": rounds, "two_process_rounds": procs}));
+}
+
+fn replay(ctx: &mut Ctx, case: &Value) {
+    match case["kind"].as_str() {
+        Some("lifecycle") => {
+            let b = Backend::parse(case["backend"].as_str().unwrap_or("")).expect("backend");
+            let ops: Vec<Op> = case["ops"].as_array().expect("ops").iter().map(|o| Op::from_json(o).expect("op")).collect();
+            let res = run_lifecycle(ctx, b, &ops);
+            compare_with_model(ctx, b, &ops, &res);
+            ctx.report.case("replay", true);
+        }
+        Some("race") => {
+            let b = Backend::parse(case["backend"].as_str().unwrap_or("")).expect("backend");
+            let n = case["threads"].as_u64().unwrap_or(2) as usize;
+            let mask = case["invalid_mask"].as_u64().unwrap_or(0) as u32;
+            for r in 0..200 {
+                race_round(ctx, b, n, mask, r);
+            }
+        }
+        Some("two-process") => two_process_round(ctx, case["variant"].as_u64().unwrap_or(0)),
+        _ => ctx.report.notes.push("C18: unknown replay case".into()),
+    }
 }
